@@ -64,6 +64,15 @@ class IntEnumMember(int):
     __str__ = __repr__
 
 
+class StrEnumMember(str):
+    """A member of a str-mixin Enum (class Mode(str, Enum)): a str for every comparison and hash, that remembers its name."""
+
+    def __new__(cls, value: str, enum_cls: str = "", name: str = "") -> "StrEnumMember":
+        obj = super().__new__(cls, value)
+        obj.enum_cls, obj.enum_name = enum_cls, name  # type: ignore[attr-defined]
+        return obj
+
+
 class Resolver:
     def __init__(self, universe: Universe) -> None:
         self.u = universe
@@ -74,10 +83,11 @@ class Resolver:
 
     # ------------------------------------------------------------------ env
     def env(self, mod: Module) -> Dict[str, Binding]:
-        if mod.name in self._env:
-            return self._env[mod.name]
+        name = getattr(mod, "env_name", None) or mod.name  # a view of a module with extra bindings (engine/inline.py)
+        if name in self._env:
+            return self._env[name]
         env: Dict[str, Binding] = {}
-        self._env[mod.name] = env
+        self._env[name] = env
         self._fill_env(mod, mod.tree.body, env)
         return env
 
@@ -336,6 +346,8 @@ class Resolver:
                     if self._is_enum(klass):
                         if isinstance(val, int) and not isinstance(val, bool) and any(ast.unparse(b).split(".")[-1] in ("IntEnum", "IntFlag") for k in self.mro(klass) for b in k.node.bases):
                             return IntEnumMember(val, klass.name, expr.attr)
+                        if isinstance(val, str) and not klass.module.external and any(ast.unparse(b).split(".")[-1] in ("str", "StrEnum") for k in self.mro(klass) for b in k.node.bases):
+                            return StrEnumMember(val, klass.name, expr.attr)
                         return EnumMember(klass.name, expr.attr, val)
                     return val
             if base is not None and base.kind == "module" and isinstance(base.target, Module):
